@@ -120,7 +120,20 @@ def run(ctx):
         states = [(rng.uniform(0, 1), [rng.uniform(0.5, 2.0) for _ in range(3)]) for _ in range(5)]
         seq = pair + [pair[0]] if rng.random() < 0.5 else list(reversed(pair))
         ntasks.append({"fn": "sysimpl.run_numjac_seq", "indicts": seq, "indict": seq[0], "states": states, "disable_analytic": True, "timeout": 600, "fresh": True})
+    # right-hand sides with function atoms from the toolbox's predefined list (also nested: a threshold inside a saturating
+    # function), symbolic Jacobian vs finite differences of the user's text
+    FSYS = [
+        {"dynamics": [{"expression": "V' = -V/tau + tanh(g*V) + I", "initial_value": "0"}, {"expression": "I' = -I/2 + exp(-V**2)", "initial_value": "1"}]},
+        {"dynamics": [{"expression": "r' = (-r + tanh(g*(V - theta)*Heaviside(V - theta)))/tau_r", "initial_value": "0"}, {"expression": "V' = -V + 2*r", "initial_value": "1"}]},
+        {"dynamics": [{"expression": "x' = -x + max(0, y - 1/2)*x", "initial_value": "1"}, {"expression": "y' = -y/3 + min(x, 1)", "initial_value": "1"}]},
+        {"dynamics": [{"expression": "u'' = -u - u'*sin(u)**2", "initial_values": {"u": "1", "u'": "0"}}, {"expression": "w' = -w*exp(-cosh(u)/2) + log(1 + u**2)", "initial_value": "1/2"}]},
+        {"dynamics": [{"expression": "V' = (E_L - V)/tau + g_L*Delta_T*exp((V - V_T)/Delta_T)/C - w/C", "initial_value": "0"}, {"expression": "w' = (a*(V - E_L) - w)/tau_w", "initial_value": "0"}]},
+        {"dynamics": [{"expression": "n' = alpha*Heaviside(V)*(1 - n)*V - n/(1 + exp(-V))", "initial_value": "1/4"}, {"expression": "V' = -V**3 + n*V", "initial_value": "1/2"}]},
+    ]
+    ftasks = [{"fn": "sysimpl.run_jacobian_fd", "indict": ind_, "flags": {"disable_analytic_solver": bool(k_ % 2)}, "pseed": rng.randint(1, 10 ** 6), "npoints": 5 if quick else 25, "timeout": 300}
+              for k_, ind_ in enumerate(FSYS)]
     res = C.run_tasks(tasks, timeout=40)
+    fres = C.run_tasks(ftasks, timeout=300)
     nres = C.run_tasks(ntasks, timeout=600, stub=True)
     coq, info, probe_failures, corr_errors = [], [], [], []
     dist = {"outcomes": {}, "n_vars": {}, "full_J": 0, "sub_J": 0, "entries_checked": 0, "nonzero_dc": 0, "numjac": {}}
@@ -164,6 +177,16 @@ def run(ctx):
                 break
             if len(samples) < 2 and label == "full" and n > 1:
                 samples.append({"indict": t["indict"], "J_at_point": [[str(v) for v in row] for row in Jf]})
+    dist["function_atom_systems"] = {"run": 0, "outcomes": {}}
+    for t, r in zip(ftasks, fres):
+        dist["function_atom_systems"]["outcomes"][str(r.get("outcome"))] = dist["function_atom_systems"]["outcomes"].get(str(r.get("outcome")), 0) + 1
+        if r.get("outcome") != "Ok":
+            continue
+        dist["function_atom_systems"]["run"] += 1
+        nontriv.add(C.stable_hash(t["indict"]))
+        if r["worst"] > 1e-6:
+            probe_failures.append({"key": "symbolic jacobian != derivative of the input (function atoms): " + C.stable_hash(t["indict"]),
+                                   "what": "%s | input %s" % (r["detail"], t["indict"]["dynamics"]), "replay": {"ftask": t}})
     for t, r in zip(ntasks, nres):
         oc = r.get("outcome")
         dist["numjac"][oc] = dist["numjac"].get(oc, 0) + 1
@@ -200,6 +223,9 @@ def replay(payload):
         exp = true_jacobian(s, pt, list(range(n)))
         got = [[Fraction(v) for v in row] for row in r["J"]]
         return exp == got, "J = %s, true Jacobian = %s" % (got, exp)
+    if "ftask" in rp:
+        r = C.run_tasks([dict(rp["ftask"], npoints=25)], timeout=600)[0]
+        return (r.get("outcome") == "Ok" and r["worst"] <= 1e-6), "worst relative deviation %s (%s)" % (r.get("worst"), r.get("detail"))
     if "ntask" in rp:
         r = C.run_tasks([rp["ntask"]], timeout=900, stub=True)[0]
         return (r.get("outcome") == "Ok" and r["worst"] <= 1e-5), "worst relative error %s" % r.get("worst")
